@@ -8,12 +8,14 @@
 namespace pure {
     namespace ci = cds::intrusive;
 
-    struct C27Acc { uint64_t cases = 0, nontrivial = 0; std::unordered_set<uint64_t> fps; };
+    struct C27Acc { uint64_t cases = 0, nontrivial = 0; std::vector<uint8_t> cls = std::vector<uint8_t>( 64 * 1024, 0 ); };   // cls: (k, bucket mod 1024) classes seen
+    inline uint64_t rev_k( uint64_t x, unsigned k ) { return k ? ref_rev64( x ) >> ( 64 - k ) : 0; }      // k-bit reversal (composed reference, cross-checked)
 
     template <class BR>
     __attribute__((noinline, cold)) void c27_fail( const char* algo, std::string const& what, unsigned k, uint64_t h, std::string const& detail, std::string const& wit )
     {
-        report( "C27", std::string( what ) + ":" + algo, std::string( algo ) + ", table size 2^" + num( k ) + ", hash " + hxs( h ) + ": " + detail,
+        if ( !report_wanted( "C27", std::string( what ) + ":" + algo )) return;
+        violation( "C27", std::string( what ) + ":" + algo, std::string( algo ) + ", table size 2^" + num( k ) + ", hash " + hxs( h ) + ": " + detail,
                 "{\"bit_reversal\":" + jstr( algo ) + ",\"log2_table_size\":" + num( k ) + ",\"hash\":" + hx( h ) + "," + wit + "}" );
     }
 
@@ -37,9 +39,9 @@ namespace pure {
         if ( k > 0 ) {
             ++A.nontrivial;
             // successor of b in split order among the 2^k buckets: increment the k-bit reversal of b
-            uint64_t rb = naive_rev( b, k );
+            uint64_t rb = rev_k( b, k );
             if ( rb + 1 <= mask ) {
-                uint64_t bn = naive_rev( rb + 1, k );
+                uint64_t bn = rev_k( rb + 1, k );
                 uint64_t dn = sl::dummy_hash<BR>( size_t( bn ));
                 if ( !( r < dn ) || !( d < dn ))
                     c27_fail<BR>( algo, "key-not-before-next-bucket-dummy", k, h, "bucket " + hxs( b ) + " (dummy " + hxs( d ) + ") is followed in split order by bucket " + hxs( bn ) + " (dummy " + hxs( dn ) + ") but regular key " + hxs( r ) + " does not sort before it",
@@ -47,7 +49,7 @@ namespace pure {
             }
             // parent: b without its most significant set bit
             if ( b ) {
-                uint64_t p = b & ~( uint64_t( 1 ) << ( naive_msb( b ) - 1 ));
+                uint64_t p = b & ~( uint64_t( 1 ) << ( ref_msb64( b ) - 1 ));
                 uint64_t dp = sl::dummy_hash<BR>( size_t( p ));
                 if ( !( dp < d ))
                     c27_fail<BR>( algo, "parent-dummy-not-before-child", k, h, "parent bucket " + hxs( p ) + " has dummy " + hxs( dp ) + ", child bucket " + hxs( b ) + " has dummy " + hxs( d ), "\"bucket\":" + hx( b ) + ",\"parent\":" + hx( p ) + ",\"dummy_hash\":" + hx( d ) + ",\"parent_dummy_hash\":" + hx( dp ));
@@ -62,7 +64,8 @@ namespace pure {
                 c27_fail<BR>( algo, "split-bucket-dummy-outside-parent-range", k, h, "after doubling, bucket " + hxs( b2 ) + " has dummy " + hxs( d2 ) + " which is not inside [" + hxs( d ) + ", " + hxs( r ) + ")",
                               "\"bucket\":" + hx( b ) + ",\"bucket_after_doubling\":" + hx( b2 ) + ",\"dummy_hash\":" + hx( d ) + ",\"dummy_after_doubling\":" + hx( d2 ) + ",\"regular_hash\":" + hx( r ));
         }
-        A.fps.insert(( uint64_t( algo_id ) << 32 ) | ( uint64_t( k ) << 16 ) | ( b & 1023 ));
+        (void) algo_id;
+        A.cls[( k << 10 ) | unsigned( b & 1023 )] = 1;
     }
 
     template <class BR>
@@ -73,7 +76,7 @@ namespace pure {
         Args& a = args();
         unsigned const T = worker_count();
         std::vector<C27Acc> acc( T );
-        uint64_t const nrandom = a.n( 1000000, 100000000 );
+        uint64_t const nrandom = budget( 1000000, 100000000 );
         static const uint64_t high_parts[] = { 0, ~uint64_t( 0 ), 0x8000000000000000ull, 0x5555555555555555ull, 0xaaaaaaaaaaaaaaaaull, 0x0123456789abcdefull, 0x00000000ffffffffull, 0xffffffff00000000ull };
         double t0 = wall_now();
         parallel( T, [&]( unsigned t ) {
@@ -85,7 +88,7 @@ namespace pure {
                     uint64_t hp = (( lo + k ) & 1 ) ? g.next() : high_parts[( lo >> 1 ) & 7];
                     uint64_t h = ( hp & ~uint64_t( 0xffff )) | lo;
                     c27_case<BR>( algo, algo_id, k, h, A );
-                    if (( lo & 0xff ) == 0 ) selfcheck_refs( h );
+                    if (( lo & 0xff ) == 0 ) { selfcheck_refs( h ); if ( rev_k( h & low_mask( k ), k ) != naive_rev( h & low_mask( k ), k )) harness_failure( "rev_k" ); }
                     // the same pattern placed just below the table-size boundary (bits k-16..k-1)
                     if ( k > 16 ) c27_case<BR>( algo, algo_id, k, ( hp & ~( uint64_t( 0xffff ) << ( k - 16 ))) | ( uint64_t( lo ) << ( k - 16 )), A );
                 }
@@ -95,7 +98,8 @@ namespace pure {
         } );
         PropStats& ps = prop( "C27" );
         uint64_t cases = 0, nt = 0;
-        for ( C27Acc& A : acc ) { cases += A.cases; nt += A.nontrivial; for ( uint64_t f : A.fps ) ps.add_fp( mix64( f )); }
+        for ( C27Acc& A : acc ) { cases += A.cases; nt += A.nontrivial; }
+        for ( unsigned c = 0; c < 64 * 1024; ++c ) { bool any = false; for ( C27Acc& A : acc ) any = any || A.cls[c]; if ( any ) ps.add_fp( mix64(( uint64_t( algo_id ) << 32 ) | c )); }
         ps.evaluations.fetch_add( cases );
         ps.nontrivial.fetch_add( nt );
         ps.add_extra( "encoding_cases", cases );
@@ -181,7 +185,7 @@ namespace pure {
             report( "C27", key, "SplitListSet::parent_bucket(2^" + num( m ) + "+5) executes undefined behaviour: " + r.msg + " at " + r.where, "{\"bucket\":" + hx(( uint64_t( 1 ) << m ) + 5 ) + ",\"probe\":" + r.json() + "}" );
         }
 #endif
-        uint64_t const per_k = a.n( 4000, 200000 );
+        uint64_t const per_k = budget( 4000, 200000 );
         for ( unsigned k = 0; k < 64; ++k ) {
             ps.add_fp( mix64( 0x27b000 + k ));
             if ( !k_ok[k] ) continue;
@@ -191,7 +195,8 @@ namespace pure {
                 ++cases;
                 if ( got != exp ) {
                     ++bad_bno;
-                    report( "C27", k >= 32 ? std::string( "bucket_no:int-shift:buckets>=2^32" ) : std::string( "bucket_no:value" ),
+                    if ( report_wanted( "C27", k >= 32 ? "bucket_no:int-shift:buckets>=2^32" : "bucket_no:value" ))
+                    violation( "C27", k >= 32 ? std::string( "bucket_no:int-shift:buckets>=2^32" ) : std::string( "bucket_no:value" ),
                             "SplitListSet::bucket_no(" + hxs( h ) + ") with 2^" + num( k ) + " buckets returned " + hxs( got ) + ", hash mod bucket count is " + hxs( exp ),
                             "{\"hash\":" + hx( h ) + ",\"log2_bucket_count\":" + num( k ) + ",\"expected\":" + hx( exp ) + ",\"actual\":" + hx( got ) + "}" );
                 }
@@ -206,7 +211,8 @@ namespace pure {
                 ++cases;
                 if ( got != exp ) {
                     ++bad_par;
-                    report( "C27", m >= 32 ? std::string( "parent_bucket:int-shift:bucket>=2^32" ) : std::string( "parent_bucket:value" ),
+                    if ( report_wanted( "C27", m >= 32 ? "parent_bucket:int-shift:bucket>=2^32" : "parent_bucket:value" ))
+                    violation( "C27", m >= 32 ? std::string( "parent_bucket:int-shift:bucket>=2^32" ) : std::string( "parent_bucket:value" ),
                             "SplitListSet::parent_bucket(" + hxs( b ) + ") returned " + hxs( got ) + ", the bucket without its most significant bit is " + hxs( exp )
                             + ( got == b ? " (the bucket is its own parent: init_bucket would recurse forever)" : "" ),
                             "{\"bucket\":" + hx( b ) + ",\"expected\":" + hx( exp ) + ",\"actual\":" + hx( got ) + "}" );
@@ -236,7 +242,7 @@ namespace pure {
         PropStats& ps = prop( "C27" );
         Args& a = args();
         Rng g( mix64( a.seed ) ^ std::hash<std::string>()( v ));
-        uint64_t const rounds = a.n( 40, 600 );
+        uint64_t const rounds = budget( 40, 600 );
         uint64_t lists = 0, ops = 0;
         bool sampled = false;
         for ( uint64_t round = 0; round < rounds; ++round ) {
